@@ -188,6 +188,14 @@ def stepC07 (st : St) (ws : List String) : Option (St × String) :=
   match ws with
   | "reset" :: f :: _ => some ({ w := { W.init with flavor := parseFlavor f } }, "ok || ok")
   | ["reopen"] => some ({ st with w := st.w.reopen }, "ok || ok")
+  | ["legacy", k, size, seed] => do
+      -- a pre-0.10 object behind the wrapper's back; on the reference side a plain put
+      let k ← parseKey k; let size ← size.toNat?; let seed ← seed.toNat?
+      let now := 3 * (st.calls + 1)
+      let data := genBytes seed size
+      pure ({ st with w := legacyPut st.w now k data (.put 0 data),
+                      r := aset st.r k ⟨data, .foreign st.refTok, now⟩,
+                      calls := st.calls + 1, refTok := st.refTok + 1 }, "ok || ok")
   | _ =>
       match parseCall st.ws (wTimeOf st.w) ws, parseCall st.rs (rTimeOf st.r) ws with
       | some (cw, head), some (cr, _) =>
@@ -199,5 +207,48 @@ def stepC07 (st : St) (ws : List String) : Option (St × String) :=
           some ({ st with w := w', r := r', ws := wside, rs := rside, calls := st.calls + 1, refTok := st.refTok + 1 },
                 sw ++ " || " ++ sr)
       | _, _ => none
+
+end AndaVerif.ObjStoreProto
+
+namespace AndaVerif.ObjStoreProto
+open AndaVerif.ObjStore AndaVerif.Drv
+
+/-! ### C08 additions
+  legacy <key> <size> <seed>     a pre-0.10 object written straight into the backend (data/<k>, then meta/<k> without
+                                 generation), followed by a re-open of the wrapper
+  crash <n> <op…>                the op is cut after its first n backend steps; restart with a cold cache → `crashed`
+  steps <op…>                    `n=<number of backend steps of the op in the current state>`
+  gc                             collect_garbage → `ok <deleted>`
+  dump                           surviving backend objects, canonical: `ok m=[keys] d=[keys] g=[key:count,…]`
+-/
+
+def sortKeys (ks : List Path) : List Path := sortPaths ks
+
+def dumpBackend (be : Backend) : String :=
+  let ms := be.filterMap (fun pe => match pe.1 with | .mt k => some k | _ => none)
+  let ds := be.filterMap (fun pe => match pe.1 with | .data k => some k | _ => none)
+  let gs := be.filterMap (fun pe => match pe.1 with | .gen k _ => some k | _ => none)
+  let gk := sortKeys (dedupPaths gs)
+  let showL (l : List Path) := "[" ++ ",".intercalate ((sortKeys l).map showKey) ++ "]"
+  "ok m=" ++ showL ms ++ " d=" ++ showL ds ++ " g=[" ++
+    ",".intercalate (gk.map (fun k => s!"{showKey k}:{(gs.filter (· == k)).length}")) ++ "]"
+
+def firstCol (s : String) : String := (s.splitOn " || ").headD s
+
+def stepC08 (st : St) (ws : List String) : Option (St × String) :=
+  let now := 3 * (st.calls + 1)
+  match ws with
+  | "crash" :: n :: op => do
+      let n ← n.toNat?
+      let (c, _) ← parseCall st.ws (wTimeOf st.w) op
+      pure ({ st with w := { (crashState st.w now c n) with nextId := st.w.nextId + 1 }, calls := st.calls + 1 }, "crashed")
+  | "steps" :: op => do
+      let (c, _) ← parseCall st.ws (wTimeOf st.w) op
+      pure (st, s!"n={(stepsOf st.w now c).length}")
+  | ["gc"] =>
+      let (w', n) := gcRun st.w now
+      some ({ st with w := w', calls := st.calls + 1 }, s!"ok {n}")
+  | ["dump"] => some (st, dumpBackend st.w.be)
+  | _ => (stepC07 st ws).map (fun r => (r.1, firstCol r.2))
 
 end AndaVerif.ObjStoreProto
